@@ -69,7 +69,12 @@ func genBucketing(t *rapid.T) Case {
 		if nonNum {
 			val = genNonNumeric(t, "nn")
 		}
-		c.Args = []Arg{mkArg(t, 0, val, false), konst(itoa(s))}
+		size := itoa(s)
+		if rapid.IntRange(0, 5).Draw(t, "padsize") == 0 {
+			// a zero-padded constant is the same decimal number (integers are read in base 10 everywhere)
+			size = strings.Repeat("0", rapid.IntRange(1, 2).Draw(t, "sizezeros")) + size
+		}
+		c.Args = []Arg{mkArg(t, 0, val, false), konst(size)}
 	case "clamp":
 		a, b := genInt(t, "min"), genInt(t, "max")
 		if a > b {
@@ -105,7 +110,13 @@ func genBucketing(t *rapid.T) Case {
 		if nonNum {
 			val = genNonNumeric(t, "nn")
 		}
-		c.Args = []Arg{mkArg(t, 0, val, false), konst(itoa(a)), konst(itoa(b))}
+		lim := func(x int64, label string) string {
+			if x >= 0 && rapid.IntRange(0, 5).Draw(t, label) == 0 {
+				return "0" + itoa(x)
+			}
+			return itoa(x)
+		}
+		c.Args = []Arg{mkArg(t, 0, val, false), konst(lim(a, "padmin")), konst(lim(b, "padmax"))}
 	case "expbucket":
 		var v int64
 		switch rapid.IntRange(0, 2).Draw(t, "vclass") {
@@ -181,6 +192,14 @@ func checkBucketing(c Case) error {
 		if u, ok := unpad(v[0]); ok {
 			v[0] = u
 			c.Obs.Label(true, "zero-padded-value")
+		}
+	}
+	for i := 1; i < len(v); i++ {
+		if c.Args[i].Via == "const" {
+			if u, ok := unpad(v[i]); ok {
+				v[i] = u
+				c.Obs.Label(true, "zero-padded-constant")
+			}
 		}
 	}
 	if !isCanonInt(v[0]) {
